@@ -61,7 +61,7 @@ func (eng) Cases(seed uint64, tier string) []core.CaseDesc {
 	for i := 0; i < nt; i++ {
 		cs = append(cs, core.CaseDesc{ID: fmt.Sprintf("torn/%03d", i), Kind: "torn", Seed: seed*8000009 + uint64(i)})
 	}
-	for i := 0; i < 14; i++ {
+	for i := 0; i < 15; i++ {
 		cs = append(cs, core.CaseDesc{ID: fmt.Sprintf("directed/%02d", i), Kind: "directed", Seed: uint64(i)})
 	}
 	return cs
